@@ -94,7 +94,7 @@ G(name="login_footprint", harness="h_login.c", entry="h_login_footprint", enforc
   what="login_calculate reads exactly pass[0..32), writes exactly buf[0..16), nothing when buflen < 16; md5.c safety obligations")
 
 for fn, ent, uw in (("fw_query_put", "h_fwq_put", 18), ("fw_query_get", "h_fwq_get", 18), ("fw_query_init", "h_fwq_init", 18), ("fw_query ring lemma", "h_fwq_ring", 18)):
-    G(name=ent[2:], harness="h_fwq.c", entry=ent, enforce=[fn], style="legacy", unwind=uw, props={"C20": "all", "C05": "safety"}, min_obl=3, cost=5,
+    G(name=ent[2:], harness="h_fwq.c", entry=ent, enforce=[fn], style="legacy", unwind=uw, props={"C20": "all", "C05": "safety"}, min_obl=3, cost=5, timeout=900,
       what="%s: ring of literal size 16, arbitrary prior state, ghost slot/byte index; loops unrolled exactly" % fn)
 
 for ent, fn, props, what in (
@@ -171,6 +171,32 @@ for uc in (0, 1):
     G(name="srv_raw_u%d" % uc, harness="h_iodined.c", entry="h_raw_decode", defs=["H_UID_CASE=%d" % uc, "STUB_HELPERS=1", "STUB_CONTRACTS=1", "H_RAW=1"], enforce=["raw_decode", "handle_raw_login", "handle_raw_data", "handle_raw_ping", "send_raw"],
       style="legacy", unwind=33, cbmc_flags=SRV_FLAGS, props={"C03": "all", "C04": "all", "C05": "safety", "C12": "all", "C19": "all", "C14": "all"}, min_obl=10, timeout=900, cost=200, mem_gb=24,
       what="raw_decode + handle_raw_login/data/ping + send_raw on a datagram of exactly len bytes (userid case %d): raw login only for a live DNS-authenticated session and only with the response for challenge+1, answered with challenge-1, then rebinding and raw mode; raw data/ping only with DNS and raw login from the bound source; nothing else changes; no DNS answer; no read outside the datagram" % uc, **SRV_SHRINK)
+
+# ---- dns.c message builders (C10) ---------------------------------------------------------------
+DNSENC = dict(harness="h_dnsenc.c", style="legacy", unwind=5, min_obl=10, timeout=600, cost=40)
+G(name="dnsenc_ns_response", entry="h_ns_response", enforce=["dns_encode_ns_response"], props={"C10": "all", "C05": "safety"}, **DNSENC,
+  what="dns_encode_ns_response for an arbitrary query object: header flags, counts equal the records present (glue A record and ARCOUNT only for an IPv4 destination), question echo, NS record = pointer owner + 'ns' label + backward pointer into the question name, RDLENGTH 5, exact message length")
+G(name="dnsenc_a_response", entry="h_a_response", enforce=["dns_encode_a_response"], props={"C10": "all", "C05": "safety"}, **DNSENC,
+  what="dns_encode_a_response: header, counts, question echo, one A record with pointer owner, RDLENGTH 4 and the address, exact message length; -1 without an IPv4 address")
+for tname in ("T_NULL", "T_PRIVATE", "T_CNAME", "T_A", "T_TXT"):
+    G(name="dnsenc_answer_" + tname, entry="h_encode_answer", defs=["H_TYPE=" + tname, "H_KIND=%d" % {"T_NULL": 0, "T_PRIVATE": 0, "T_CNAME": 1, "T_A": 1, "T_TXT": 2}[tname]], enforce=["dns_encode"], props={"C10": "all", "C09": "all", "C05": "safety"}, **DNSENC,
+      what="dns_encode, answer direction, question type %s: header, counts, question echo (id, name, type), one record with pointer owner to offset 12, RDLENGTH equal to the bytes present, exact message length%s" % (
+          tname[2:], "; payload copied byte for byte (ghost index)" if tname in ("T_NULL", "T_PRIVATE") else ""))
+for tname in ("T_MX", "T_SRV"):
+    G(name="dnsenc_answer_" + tname, entry="h_encode_list", defs=["H_TYPE=" + tname, "H_KIND=3", "H_LOOP=1"], enforce=["dns_encode"], wip=True, tier="thorough", kind="bounded", bound="list of at most 7 bytes = at most 3 host names (record loop unwound 4 times with unwinding assertion)",
+      props={"C10": "all", "C09": "all", "C05": "safety"}, **dict(DNSENC, unwind=5, timeout=1200, cost=300, mem_gb=24, rss_gb=8),
+      what="dns_encode, answer direction, question type %s, list of at most 3 host names (BOUNDED): header, question echo, ANCOUNT equals the records written, every record (arbitrary ghost position) has pointer owner, echoed type, class IN, preference 10 x position, RDLENGTH equal to the bytes present, lies inside the message; first record follows the question, last record ends the message" % tname[2:])
+G(name="dnsenc_query", entry="h_encode_query", enforce=["dns_encode"], props={"C10": "all", "C05": "safety", "C06": "safety"}, **DNSENC,
+  what="dns_encode, query direction (client send_query and server forward_query): header, one question with the host name / the query's own name, type, class IN, EDNS0 OPT record present exactly when ARCOUNT is 1, exact message length")
+
+G(name="putname", wip=True, harness="h_putname.c", entry="h_putname", style="legacy", enforce=["putname"], loops="putname.inv", loop_fns=["putname"], spec_incs=["spec/putname.h"], unwind=3,
+  props={"C10": "all", "C05": "safety", "C06": "safety"}, min_obl=30, timeout=900, cost=100,
+  what="putname for every name of at most 255 characters (QUERY_NAME_SIZE - 1) and every limit (loop contract, no bound): writes one length byte 1..63 plus the bytes of every strtok token (arbitrary ghost token and byte), contiguously, then the root label; n + 2 bytes exactly unless the name has an empty label (witness position checked); never beyond n + 2 bytes; fails only at a label longer than 63 or with a limit below the length of the name, leaving the cursor unchanged")
+
+# ---- client.c (C06, C09) ------------------------------------------------------------------------------
+CLI = dict(harness="h_client.c", style="legacy", unwind=8, timeout=900)
+G(name="cli_namedec", entry="h_namedec", enforce=["dns_namedec"], props={"C09": "all", "C06": "safety"}, min_obl=10, cost=30, **CLI,
+  what="client dns_namedec for every answer text of 1..1024 characters: letter h/i/j/k (host name) and t/s/u/v (TXT) select Base32/Base64/Base64u/Base128 - the codec the server used for that letter -, exactly the text between letter and suffix is decoded into the caller's buffer, r = raw copy, anything else decodes nothing; result within the output space")
 
 LEVELS = {}
 TRUSTED_BASE = ["CBMC 6.11.0 (goto-cc front end, goto-instrument --dfcc contract instrumentation, symex)",
